@@ -5,6 +5,16 @@
 
 package imapserver
 
+import (
+	"crypto/tls"
+	"net"
+
+	"github.com/emersion/go-imap/v2"
+	"github.com/emersion/go-imap/v2/internal/imapwire"
+)
+
+var _ *imapwire.Decoder // used by //@ func headers
+
 // ---------------------------------------------------------------------------
 // C07: sequence-number translation. Ghost specification over a queue value.
 
@@ -183,3 +193,100 @@ func wfBack(q []trackerUpdate, k int, c uint32) bool {
 //@   loop 0 invariant cur != 0 && seqNum != 0 && seqNum <= t.mailbox.numMessages && encAcc(t.queue, i, cur) == encAcc(t.queue, len(t.queue)-1, seqNum)
 //@   loop 0 invariant cur <= cntAtBack(t.queue, i+1, t.mailbox.numMessages) && wfBack(t.queue, i, cntAtBack(t.queue, i+1, t.mailbox.numMessages))
 //@   loop 0 decreases i + 1
+
+// ---------------------------------------------------------------------------
+// C05 / C06: every method of *Conn is checked (a) for the state in which it
+// reaches the back end (callsite obligations, from any entry state), and (b)
+// for absence of run-time panics (bounds, nil, type assertions).
+
+//@ pure
+func authed(c *Conn) bool {
+	return c.state == imap.ConnStateAuthenticated || c.state == imap.ConnStateSelected
+}
+
+// isTLS: the connection is a TLS connection (dynamic type test).
+//
+//@ pure
+func isTLS(conn net.Conn) bool {
+	_, ok := conn.(*tls.Conn)
+	return ok
+}
+
+// mayAuth: credentials may be accepted — only before authentication and only
+// over TLS unless insecure authentication was explicitly enabled.
+//
+//@ pure
+func mayAuth(c *Conn) bool {
+	return c.state == imap.ConnStateNotAuthenticated && (isTLS(c.conn) || c.server.options.InsecureAuth)
+}
+
+//@ rule (c *Conn)
+//@   props C05:callsite,post,pre@call C06:safety
+//@   requires c != nil && c.server != nil
+//@   callsite Session.Login requires mayAuth(c)
+//@   callsite Session.Select requires authed(c)
+//@   callsite Session.Create requires authed(c)
+//@   callsite Session.Delete requires authed(c)
+//@   callsite Session.Rename requires authed(c)
+//@   callsite Session.Subscribe requires authed(c)
+//@   callsite Session.Unsubscribe requires authed(c)
+//@   callsite Session.List requires authed(c)
+//@   callsite Session.Status requires authed(c)
+//@   callsite Session.Append requires authed(c)
+//@   callsite Session.Poll requires authed(c)
+//@   callsite Session.Idle requires authed(c)
+//@   callsite SessionNamespace.Namespace requires authed(c)
+//@   callsite SessionUnauthenticate.Unauthenticate requires authed(c)
+//@   callsite Session.Unselect requires c.state == imap.ConnStateSelected
+//@   callsite Session.Expunge requires c.state == imap.ConnStateSelected
+//@   callsite Session.Search requires c.state == imap.ConnStateSelected
+//@   callsite Session.Fetch requires c.state == imap.ConnStateSelected
+//@   callsite Session.Store requires c.state == imap.ConnStateSelected
+//@   callsite Session.Copy requires c.state == imap.ConnStateSelected
+//@   callsite SessionMove.Move requires c.state == imap.ConnStateSelected
+//@   ensures c.state == old(c.state)
+//@   exclude serve handleIdle
+
+//@ func (c *Conn) checkState(state imap.ConnState) (err error)
+//@   props C05 C06
+//@   ensures err == nil ==> c.state == state || (state == imap.ConnStateAuthenticated && c.state == imap.ConnStateSelected)
+//@   ensures c.state == old(c.state)
+
+//@ func (c *Conn) canAuth() (result bool)
+//@   props C05 C17
+//@   requires c != nil && c.server != nil
+//@   ensures result == mayAuth(c)
+//@   ensures c.state == old(c.state)
+
+// State transitions (C05). Every other method of *Conn leaves c.state
+// unchanged (rule above). __called / __failed are ghost records of back-end
+// calls made by the function under verification.
+
+//@ func (c *Conn) handleLogin(tag string, dec *imapwire.Decoder) (err error)
+//@   ensures c.state == old(c.state) || (old(mayAuth(c)) && c.state == imap.ConnStateAuthenticated)
+//@   ensures c.state != old(c.state) ==> __called("Session.Login") && !__failed("Session.Login")
+
+//@ func (c *Conn) handleAuthenticate(tag string, dec *imapwire.Decoder) (err error)
+//@   ensures c.state == old(c.state) || (old(mayAuth(c)) && c.state == imap.ConnStateAuthenticated)
+
+//@ func (c *Conn) handleUnauthenticate(dec *imapwire.Decoder) (err error)
+//@   ensures c.state == old(c.state) || (old(authed(c)) && c.state == imap.ConnStateNotAuthenticated)
+//@   ensures c.state != old(c.state) ==> __called("SessionUnauthenticate.Unauthenticate") && !__failed("SessionUnauthenticate.Unauthenticate")
+
+//@ func (c *Conn) handleSelect(tag string, dec *imapwire.Decoder, readOnly bool) (err error)
+//@   ensures c.state == old(c.state) || (old(authed(c)) && (c.state == imap.ConnStateSelected || c.state == imap.ConnStateAuthenticated))
+//@   ensures __called("Session.Select") && __failed("Session.Select") ==> c.state == imap.ConnStateAuthenticated
+//@   ensures c.state == imap.ConnStateSelected && !(__called("Session.Select") && !__failed("Session.Select")) ==> old(c.state) == imap.ConnStateSelected && (!__called("Session.Unselect") || __failed("Session.Unselect"))
+//@   ensures __called("Session.Unselect") && !__failed("Session.Unselect") && !__called("Session.Select") ==> c.state == imap.ConnStateAuthenticated
+
+//@ func (c *Conn) handleUnselect(dec *imapwire.Decoder, expunge bool) (err error)
+//@   ensures c.state == old(c.state) || (old(c.state) == imap.ConnStateSelected && c.state == imap.ConnStateAuthenticated)
+//@   ensures c.state != old(c.state) ==> __called("Session.Unselect") && !__failed("Session.Unselect")
+//@   ensures err == nil ==> c.state == imap.ConnStateAuthenticated
+
+//@ func (c *Conn) handleLogout(dec *imapwire.Decoder) (err error)
+//@   ensures c.state == old(c.state) || c.state == imap.ConnStateLogout
+//@   ensures err == nil ==> c.state == imap.ConnStateLogout
+
+//@ func (c *Conn) readCommand(dec *imapwire.Decoder) (err error)
+//@   ensures old(c.state) == imap.ConnStateLogout ==> true
